@@ -117,6 +117,7 @@ func main() {
 	rng := hx.NewRng(run.Seed)
 	run.Watch(20*time.Second, 3<<30, func(cur string) string { return cur })
 
+	exhaustivePhase := true
 	doDec := func(bs []byte) {
 		run.Current("dec " + hx.Hex(bs)) // progress for the watchdog (the untyped phases take > 20 s in the thorough tier)
 		o := decIface(bs)
@@ -126,8 +127,16 @@ func main() {
 		} else {
 			run.Count("dec:" + strings.Fields(o)[0])
 		}
-		if s := decStream(bs); s != o {
+		s := decStream(bs)
+		if s != o {
 			run.Violate("stream-differs", "stream-vs-decodebytes", hx.Hex(bs), "Stream: "+s+" DecodeBytes: "+o)
+		}
+		// the Stream entry point (NewStream(r, len) + Decode + second Decode = io.EOF) against the Go-shaped Stream
+		// machine of the model (Aqv.Model.RlpStream); the length-5 layer of the thorough exhaustive scope is left to
+		// the `dec` line to keep the case file within bounds
+		if !(run.Thorough() && len(bs) == 5 && exhaustivePhase) {
+			run.Case("sdec "+hx.Hex(bs), s)
+			run.Count("sdec")
 		}
 	}
 
@@ -152,6 +161,7 @@ func main() {
 		}
 	}
 	rec(nil)
+	exhaustivePhase = false
 	doDec([]byte{})
 	run.Notes["exhaustive_alphabet_len"] = maxLen
 
